@@ -14,8 +14,10 @@ use std::io::Write;
 use std::os::unix::ffi::OsStrExt;
 use std::path::{Path, PathBuf};
 
+#[allow(dead_code)]
 #[path = "../dump.rs"]
 mod dump;
+#[allow(dead_code)]
 #[path = "../util.rs"]
 mod util;
 
